@@ -46,7 +46,9 @@ def arc_km(n, N):
 def threshold_km(k, N, metric):
     d = chord_km if metric == "minkowski" else arc_km
     if k >= N // 2:
-        return d(N // 2, N) * 1.01
+        # chord: anything beyond the diameter; arc: exactly half the circumference (the largest radius the property
+        # names; a larger one wraps in the tree's reduced haversine distance)
+        return d(N // 2, N) * (1.01 if metric == "minkowski" else 1.0)
     return (d(k, N) + d(k + 1, N)) / 2       # mid-gap: hundreds of km from either class
 
 
